@@ -70,7 +70,7 @@ theorem drainEmptyByte_ok (rd : Rd) (q : Nat) (x : Bits) (hq : (8 - rd.pos % 8) 
 
 
 /-- the facts `drainR_spec` provides, also available (trivially) for an empty batch -/
-theorem drain_facts (L : Matcher) (hL : LazyOf L) (c : BCtx) (hc : c.Ok)
+theorem drain_facts (L : Matcher) (hL : WeakLazyOf L) (c : BCtx) (hc : c.Ok)
     (n m : Nat) (hm : m ≤ n) (hn : n ≤ c.us.length) (st : UState) (pos : Nat) (s tl : Bits)
     (xs : List Nat) (stf : UState) (rf : Bits)
     (hfull : iterUnits (unit c.tbl) n st (s ++ tl) = .ok (xs, stf) rf)
@@ -90,7 +90,7 @@ theorem drain_facts (L : Matcher) (hL : LazyOf L) (c : BCtx) (hc : c.Ok)
       intro h; rw [h] at hn; simp at hn; omega
     exact drainR_spec L hL c.tbl (hc.hct hne) n m hm st pos s tl xs stf rf hfull ys st' pos' r why hd
 
-theorem numBatch_spec (L : Matcher) (hL : LazyOf L) (c : BCtx) (hc : c.Ok) (b : Body)
+theorem numBatch_spec (L : Matcher) (hL : WeakLazyOf L) (c : BCtx) (hc : c.Ok) (b : Body)
     (limit : Nat)
     (hn : b.n = c.us.length) (htbl : tableOf b.ps = c.tbl) (hbytes : b.bodyBytes * 8 = c.EL + c.padn)
     (a t : Bits) (pos q : Nat) (hinv : UInv c b.st a t pos q) (hal : (pos + a.length) % 8 = 0) :
